@@ -16,7 +16,7 @@ var Globals = map[string]cty.Value{
 }
 
 // Pool: the attribute values substituted by the "replace value" perturbation.
-var Pool = []Expr{L("s"), L("n"), L("t"), L("ls"), L("ob"), L("null"), R("unk"), R("dyn")}
+var Pool = []Expr{L("s"), L("n"), L("t"), L("ls"), L("ln"), L("ob"), L("null"), R("unk"), R("dyn")}
 
 // conforming value of variant v (0 or 1) for an attribute of the given type.
 func conformingValue(ty string, v int) Expr {
